@@ -73,3 +73,8 @@ MUTANTS = [
     dict(name="empty_after_strip_accepted", file=B, **{"from": "if stripped.is_empty() || !stripped", "to": "if !stripped"},
          expect=["C16.K.is_valid.regex_len4"]),
 ]
+
+BENIGN = [
+    dict(name="is_valid_rewritten_as_one_expression", file=B, **{"from": "    if stripped.is_empty() || !stripped.as_bytes().iter().cloned().all(valid_char) {\n        return false;\n    }\n\n    true", "to": "    !stripped.is_empty() && stripped.bytes().all(valid_char)"}),
+    dict(name="from_str_condition_inverted", file=B, **{"from": "        if !is_valid(s) {\n            return Err(ParseError(()));\n        }\n\n        Ok(BearerToken(s.to_string()))", "to": "        if is_valid(s) {\n            Ok(BearerToken(s.to_string()))\n        } else {\n            Err(ParseError(()))\n        }"}),
+]
